@@ -103,7 +103,9 @@ def _split_format(
     mspec = remove_custom_flags(spec)
     uspec = extract_custom_flags(spec)
 
-    default_mspec = remove_custom_flags(default)
+    # "#" (compact) is consumed before splitting; it is not part of the
+    # magnitude format when it comes from the default format either.
+    default_mspec = remove_custom_flags(default).replace("#", "")
     default_uspec = extract_custom_flags(default)
 
     warns = []
